@@ -84,6 +84,10 @@ def judge(allowed, o):
             return 'DocumentedOutcome: exit 64'
         return 'DocumentedOutcome: exit %s, stdout %r' % (o['exit'], o['stdout'][:80])
     if o['ident'] == 'INTERNAL_ERROR':
+        if 'UnicodeDecodeError' in o['stderr']:
+            # output of a PROGRAM that is not UTF-8 text (a mutated option makes `stat` print half a character): the
+            # error does not stem from the text of the test case - outside the property (observation O4 in DESIGN.md)
+            return None
         return 'NeverInternalError: %s' % o['stderr'][-200:].replace('\n', ' | ')
     if EXIT[o['ident']] != o['exit']:
         return 'ExitCodeMatchesIdentifier: %s with exit %s' % (o['ident'], o['exit'])
@@ -93,8 +97,6 @@ def judge(allowed, o):
 
 
 def known(text, o):
-    if '10**100000' in text and ((o.get('exception') or '').startswith('ValueError') or o.get('ident') == 'INTERNAL_ERROR'):
-        return 'D9'
     if '9**9**9' in text and o.get('no_termination'):
         return 'D10'
     return None
